@@ -4,9 +4,33 @@
 package c10types
 
 import (
+	"crypto/x509/pkix"
+	"encoding/asn1"
+	"encoding/pem"
 	"image"
+	"net"
 	"net/url"
 	"time"
+)
+
+// types with fields of STRUCT types of other packages that hold slices and maps (and further such structs): such a
+// field can be non-zero and still render nothing (only empty, non-nil slices/maps, at any depth); the property
+// identifies it with the zero field, it is omitted from the literal, and then none of its packages may be imported
+type (
+	Sealed struct {
+		Alg pkix.AlgorithmIdentifier // pkix -> asn1: {Algorithm asn1.ObjectIdentifier; Parameters asn1.RawValue{.. Bytes, FullBytes []byte}}
+		Sig asn1.BitString           // {Bytes []byte; BitLength int}
+		Blk pem.Block                // {Type string; Headers map[string]string; Bytes []byte}
+		Net net.IPNet                // {IP net.IP; Mask net.IPMask}
+		N   int
+	}
+	Vault struct {
+		S      Sealed
+		Exts   []pkix.Extension // {Id asn1.ObjectIdentifier; Critical bool; Value []byte}
+		ByName map[string]pem.Block
+		Raw    *asn1.RawValue
+		Name   string
+	}
 )
 
 // types with fields of named types of OTHER packages: a zero-valued field of such a type is omitted from the
